@@ -355,6 +355,12 @@ func (wf *Workflow) readyToRun(procs map[string]WorkflowProcess) bool {
 			return false
 		}
 	}
+	// A process that has taken over as the driver is no longer among the
+	// processes above, but its ports need to be connected all the same
+	if wf.driver != WorkflowProcess(wf.sink) && !wf.driver.Ready() {
+		Error.Println(wf.name + ": Not everything connected. Workflow shutting down.")
+		return false
+	}
 	return true
 }
 
